@@ -23,7 +23,8 @@ inline bool mpDenotes(const MValue& D, const MValue& M, const std::string& path,
     case MValue::F32: {
       leaf = mtext(M);
       if (D.kind == MValue::F32) return fbits(D.f) == fbits(M.f) || die("float32 not bit-exact");
-      if (D.kind == MValue::F64) return (dbits(D.d) == dbits(double(M.f)) || (M.f != M.f && D.d != D.d)) || die("float64 of a different value");
+      if (M.f != M.f) return die("a float32 NaN must be emitted as the same 4 bytes (its payload does not survive a change of width)");
+      if (D.kind == MValue::F64) return dbits(D.d) == dbits(double(M.f)) || die("float64 of a different value");
       if (D.kind == MValue::Int) return (integralInRange(M.f) && (long double)D.i == (long double)M.f) || die("integer of a different value");
       return die("not a number");
     }
@@ -167,6 +168,10 @@ inline MValue configuredModel(const MValue& in) {
 #if !ARDUINOJSON_USE_DOUBLE
   if (r.kind == MValue::F64) r = MValue::f32(float(in.d));
 #endif
+#if !ARDUINOJSON_USE_LONG_LONG
+  // without 64-bit storage an integer outside [-2^31, 2^32) cannot be held: the document has null instead (never a wrong number)
+  if (r.kind == MValue::Int && (r.i < -(i128(1) << 31) || r.i >= (i128(1) << 32))) r = MValue::null();
+#endif
   for (auto& e : r.a) e = configuredModel(e);
   for (auto& kv : r.o) kv.second = configuredModel(kv.second);
   return r;
@@ -174,6 +179,10 @@ inline MValue configuredModel(const MValue& in) {
 
 inline void checkMsgPackDoc(Ctx& C, const MValue& mGiven, const MpOpts& o) {
   const MValue m = configuredModel(mGiven);
+  if (o.sto && m.kind != MValue::Int) return;  // the signed-storage variant of an integer this configuration cannot hold
+#if !ARDUINOJSON_USE_LONG_LONG
+  if (o.sto && m.i >= (i128(1) << 31)) return;  // set(long) has 32-bit signed storage only: the document holds null
+#endif
   std::string key = docKey(m) + (o.sto ? "|sto=signed" : "") + o.tag;
   const std::string kop = key + "|op=msgpack";
   C.begin(kop);
@@ -431,6 +440,17 @@ inline void runMsgPack(Ctx& C) {
     checkMsgPackDoc(C, m, o);
   };
   MpOpts plain;
+  // strings over every byte value, and strings whose bytes have neighbours (the alphabets of C02), as value and as key
+  if (!len4) {
+    std::vector<std::string> strs = stringsJson();
+    for (auto& cs : contextStrings()) strs.push_back(cs);
+    for (auto& cs : strs) {
+      one(MValue::str(cs), plain);
+      MValue ob = MValue::object();
+      ob.o.emplace_back(cs, MValue::str(cs));
+      one(ob, plain);
+    }
+  }
   const std::vector<size_t> binSizes = len4 ? std::vector<size_t>{0, 1, 255, 256, 65535, 65536, 65537}
                                             : std::vector<size_t>{0, 1, 2, 3, 4, 5, 8, 9, 15, 16, 17, 255, 256, 257, 65000, 65535, 65536};
   const std::vector<size_t> strSizes = len4 ? std::vector<size_t>{31, 32, 255, 256, 65534, 65535, 65536, 65537}
